@@ -904,7 +904,7 @@ func c17Narrowing(c *Ctx, fns []*ssa.Function) {
 					continue
 				}
 				g, keys := te.derivGroup(cv.X)
-				cb := te.comparisonBlocks(fn, g, keys, "alloc")
+				cb := te.comparisonBlocks(fn, g, keys, "narrow")
 				// comparison later in the conversion's own block is on every path out of it
 				ownLater := cb[b.Index]
 				// phase 1: conversion reachable without a prior comparison?
